@@ -194,7 +194,7 @@ def scan_assumptions(genpath):
     for kw in ('assume(', 'admit(', 'external_body', 'assume_specification', 'external_type_specification',
                'exec_allows_no_decreases_clause', 'external_trait_specification'):
         inv[kw] = txt.count(kw)
-    items = re.findall(r'assume_specification\s*(?:<[^\[]*>)?\s*\[\s*([^\]]+?)\s*\]', txt)
+    items = [re.sub(r'\s+', ' ', x.strip()) for x in re.findall(r'assume_specification\s*(?:<[^\[]*?>)?\s*\[(.*?)\]\s*\(', txt, re.S)]
     ext = re.findall(r'#\[verifier::external_body\]\s*(?:pub\s+)?(?:fn|struct)\s+(\w+)', txt)
     return inv, sorted(set(items)), sorted(set(ext))
 
@@ -326,9 +326,8 @@ def decide(pid, units, known, baseline):
             fn, lab = k.split('|')
             if lab.split('.')[0] == pid:
                 labs[(fn, lab)] = lines
-        serves = bool(labs) or pid == 'C06'
-        if not serves:
-            continue
+        # every unit handed to decide() serves the property (selected by the labels in its template): a unit that could not be
+        # generated or verified makes the property undecided, it is never silently skipped
         if u['status'] == 'undecided':
             undec.extend('%s: %s' % (u['unit'], x) for x in u['undecided'])
             continue
@@ -381,7 +380,10 @@ def trusted_base(units):
             continue
         for s in sc['assume_specification']:
             tb.append('assume_specification[%s] (%s unit)' % (s, u['unit']))
+        stubs = set(x.split('::')[-1] for x in (u.get('meta') or {}).get('stubs', []))
         for s in sc['external_body']:
+            if s in stubs:
+                continue  # caller-side view of a function whose real body is verified in its own unit
             tb.append('external_body %s (%s unit)' % (s, u['unit']))
     return sorted(set(tb))
 
